@@ -18,7 +18,8 @@ import struct
 
 from vlib import core, corr
 
-DEPENDS = ["Timers", "TimersP", "Base", "Tok", "C09"]
+DEPENDS = ["Timers", "TimersP", "TimersFull", "TimersFullSpec", "TimersFullP", "TimersFullLink", "TimersFullAck", "Recovery", "RecBase", "AckQueue", "C12Consts", "C09Consts", "Base", "Tok", "C09"]
+GENERATORS = ["c09_consts"]
 TRUSTED_BASE = [
     "extraction (ExtrOcamlBasic only; Z kept inductive) + coq/extract/driver.ml for running coq/model/Timers.v",
     "harness/sim (Pair driver loop mirroring aioquic.asyncio, emulated listener, wire observer, puppet) and "
@@ -31,7 +32,18 @@ TRUSTED_BASE = [
     "_close_pending (did this receive call close()) and the reason phrase of the _close_event it then recorded "
     "(reserved-bits close vs. frame error), len(_events); used as compared observable: _state class; "
     "per-packet fate of a datagram is read from the endpoint's own qlog events (packet_received / packet_dropped)",
-    "modelled, not verified: connection.py timer/closing logic as Gallina functions; recovery.py is an input",
+    "modelled, not verified: connection.py timer/closing logic as Gallina functions",
+    "composed model (coq/model/TimersFull.v, suite timersfull): per get_timer() / handle_timer() / datagrams_to_send() call the "
+    "timer-relevant sub-state is INJECTED from LABELLED PEEKS (_close_at, _loss_at, _state class, per space ack_at / loss_time / "
+    "ack_eliciting_in_flight / discarded, peer_completed_address_validation, _pto_count, _probe_pending, _pacing_at, "
+    "_handshake_complete, send-key validity) and the model must predict the returned timer, the source it came from (harness: first "
+    "source in consultation order whose value equals the result), the loss detection time incl. whether it is armed, the branch "
+    "handle_timer takes (observed by wrapping _loss.on_loss_detection_timeout / _detect_loss), the successor sub-state, and the "
+    "_pacing_at left by datagrams_to_send (pacer consultations observed by wrapping _pacer.next_send_time and _write_application); "
+    "float VALUES (new loss_time, PTO deadline, pacer result, removed-packet counts) are inputs taken from the post-state; the "
+    "transitions of the sub-state BETWEEN these calls (receive side, packet registration) are not replayed by this suite -- for "
+    "ack_at that is C12's tie, for recovery C08's",
+    "tools/gen/c09_consts.py: PACING_RESET probed from the source of datagrams_to_send (AST), fail closed",
 ]
 ASSUMPTIONS = [
     "the caller fires handle_timer(now) with now >= get_timer() (the property's own premise); handle_timer is "
@@ -46,6 +58,26 @@ PUPPET_REASON = b"c09-puppet"
 EXN_CODES = {"AssertionError": 100, "TypeError": 101, "IndexError": 102}
 STATE_CLASS = {"FIRSTFLIGHT": 0, "CONNECTED": 0, "CLOSING": 1, "DRAINING": 2, "TERMINATED": 3}
 MODELLED = ("connect", "receive_datagram", "close", "datagrams_to_send", "handle_timer", "next_event", "get_timer")
+
+
+_PR = []
+
+
+def PACING_RESET():
+    """Does the tree under check clear _pacing_at at the top of the non-closing branch of datagrams_to_send?  Probed from the
+    source of the tree under check by tools/gen/c09_consts.py (the same probe that writes coq/gen/C09Consts.v in the build step of
+    this run; asked directly so that a concurrent check of another tree cannot change the answer)."""
+    if not _PR:
+        import importlib.util
+        import os
+        try:
+            spec = importlib.util.spec_from_file_location("c09_consts_probe", os.path.join(core.VERIF, "tools", "gen", "c09_consts.py"))
+            mod = importlib.util.module_from_spec(spec)
+            spec.loader.exec_module(mod)
+            _PR.append(bool(mod.read_consts()["PACING_RESET"]))
+        except Exception:  # noqa: BLE001  (the generator failed closed: the build step has already reported it)
+            _PR.append(False)
+    return _PR[0]
 
 
 def enc(x):
@@ -82,6 +114,15 @@ class Tracer:
         self.max_slack = max_slack
         self.tin = [1 if ep.name == "client" else 0]
         self.tout = []
+        self.fin = []           # composed model (exec_timersfull): injected sub-states
+        self.fout = []
+        self.fops = {}
+        self.fsrc = {}
+        self.fbranch = {}
+        self.fpace = {}
+        self.loss_hooked = None
+        self.loss_calls = []
+        self.pace_calls = None
         self.log = []           # human readable, one line per op
         self.ops = 0
         self.opnames = {}
@@ -129,6 +170,153 @@ class Tracer:
 
         tr.log_event = log_event
 
+    def hook_loss(self):
+        """Observe which branch handle_timer takes and what _write_application asks the pacer (wrappers only record)."""
+        c = self.ep.conn
+        loss = c._loss
+        if loss is self.loss_hooked:
+            return
+        self.loss_hooked = loss
+        me = self
+        o_timeout, o_detect, o_next, o_wa = loss.on_loss_detection_timeout, loss._detect_loss, loss._pacer.next_send_time, c._write_application
+
+        def on_loss_detection_timeout(*, now):
+            me.loss_calls.append(("timeout", None))
+            return o_timeout(now=now)
+
+        def _detect_loss(*, now, space):
+            me.loss_calls.append(("detect", loss.spaces.index(space) if space in loss.spaces else -1))
+            return o_detect(now=now, space=space)
+
+        def next_send_time(now):
+            r = o_next(now=now)
+            if me.pace_calls is not None:
+                me.pace_calls.append(r)
+            return r
+
+        def _write_application(builder, network_path, now):
+            if me.pace_calls is not None:
+                me.pace_calls.append("reached")
+            return o_wa(builder, network_path, now)
+
+        loss.on_loss_detection_timeout = on_loss_detection_timeout
+        loss._detect_loss = _detect_loss
+        loss._pacer.next_send_time = next_send_time
+        c._write_application = _write_application
+
+    def sub(self):
+        """LABELLED PEEK: the timer-relevant sub-state of the composed model."""
+        c = self.ep.conn
+        from aioquic.quic.connection import END_STATES
+        from aioquic import tls
+        sp = [(x.ack_at, x.loss_time, x.ack_eliciting_in_flight, bool(getattr(x, "discarded", False))) for x in c._loss.spaces]
+        keys = False
+        try:
+            keys = c._cryptos[tls.Epoch.ONE_RTT].send.is_valid() or c._cryptos[tls.Epoch.ZERO_RTT].send.is_valid()
+        except (AttributeError, KeyError):
+            pass
+        return {"close_at": c._close_at, "loss_at": c._loss_at, "end": c._state in END_STATES, "sp": sp,
+                "pcav": bool(c._loss.peer_completed_address_validation), "pto": c._loss._pto_count, "pacing": c._pacing_at,
+                "probe": bool(c._probe_pending), "complete": bool(c._handshake_complete), "appkeys": bool(keys),
+                "ordinary": c._state not in END_STATES and bool(c._network_paths) and not c._close_pending,
+                "term": c._state.name == "TERMINATED"}
+
+    @staticmethod
+    def sp_tokens(sp):
+        out = [len(sp)]
+        for a, lt, ae, d in sp:
+            out += opt(a) + opt(lt) + [ae, 1 if d else 0]
+        return out
+
+    def femit(self, kind, tin, tout):
+        if self.dead:
+            return
+        self.fin += tin
+        self.fout += tout
+        self.fops[kind] = self.fops.get(kind, 0) + 1
+
+    def full_get_timer(self, sub, loss, res, exc):
+        """get_timer(): the model gets the sub-state and the VALUE of the PTO deadline; it must say the result, its source,
+        and the loss detection time (armed or not)."""
+        has_lt = any(lt is not None for _, lt, _, _ in sub["sp"])
+        ptod = loss if (loss is not None and not has_lt) else 0.0
+        tin = [6] + opt(sub["close_at"]) + [1 if sub["end"] else 0] + self.sp_tokens(sub["sp"]) + \
+            [1 if sub["pcav"] else 0, sub["pto"]] + opt(sub["pacing"]) + [enc(ptod)]
+        if exc is not None:
+            tout = [EXN_CODES.get(exc, 199)]
+        elif res is None:
+            tout = [0]
+        elif sub["end"]:
+            tout = [1, enc(res), 0]
+        else:
+            # first source in consultation order whose value is the result (strict `<` keeps the earlier one on ties)
+            order = [(0, sub["close_at"])] + [(10 + i, a) for i, (a, _, _, _) in enumerate(sub["sp"])]
+            lts = [(lt, i) for i, (_, lt, _, _) in enumerate(sub["sp"]) if lt is not None]
+            if lts:
+                best = min(v for v, _ in lts)
+                order.append((20 + next(i for v, i in lts if v == best), loss))
+            else:
+                order.append((30, loss))
+            order.append((40, sub["pacing"]))
+            src = next((code for code, v in order if v is not None and v == res), -2)
+            tout = [1, enc(res), src] + opt(loss)
+            self.fsrc[src] = self.fsrc.get(src, 0) + 1
+        self.femit("get_timer", tin, tout)
+
+    def full_handle_timer(self, now, pre, post, exc):
+        calls = self.loss_calls
+        timeout = any(k == "timeout" for k, _ in calls)
+        detect = [i for k, i in calls if k == "detect"]
+        fired = pre["close_at"] is not None and now >= pre["close_at"]
+        lt, ae = None, []
+        if exc is not None:
+            branch = None
+        elif fired:
+            branch = [1]
+        elif timeout and detect:
+            i = detect[0]
+            branch = [2, i]
+            if i < len(post["sp"]):
+                lt = post["sp"][i][1]
+                ae = [pre["sp"][i][2] - post["sp"][i][2]]
+        elif timeout:
+            branch = [3]
+            ae = [a[2] - b[2] for a, b in zip(pre["sp"], post["sp"])]
+        else:
+            branch = [0]
+        tin = [4, enc(now)] + opt(pre["close_at"]) + opt(pre["loss_at"]) + self.sp_tokens(pre["sp"]) + \
+            [1 if pre["pcav"] else 0, pre["pto"], 1 if pre["probe"] else 0] + opt(lt) + [len(ae)] + ae
+        if exc is not None:
+            tout = [EXN_CODES.get(exc, 199)]
+        else:
+            tout = branch + [post["pto"], 1 if post["probe"] else 0] + self.sp_tokens(post["sp"])
+            self.fbranch[branch[0]] = self.fbranch.get(branch[0], 0) + 1
+        self.femit("handle_timer", tin, tout)
+
+    def full_send(self, now, pre, post, exc):
+        """The pacing part of datagrams_to_send (ordinary branch): _pacing_at is written only by the pacer consultations
+        of _write_application (and by the reset of docs/C09-fix-1.patch when the tree has it)."""
+        if exc is not None or not pre["ordinary"]:
+            return
+        calls = self.pace_calls or []
+        reached = "reached" in calls
+        consults = [r for r in calls if r != "reached"]
+        a = pre["sp"][2][0] if len(pre["sp"]) > 2 else None
+        due = a is not None and a <= now
+        its = []
+        if due and reached and pre["appkeys"]:
+            its.append((None, 0, 1, 0 if consults else 1))          # the ACK bypass iteration
+        for k, r in enumerate(consults):
+            its.append((r, 0, 1, 1 if k == len(consults) - 1 else 0))
+        tin = [3, 1 if PACING_RESET() else 0, 0 if reached else 1, 1 if pre["appkeys"] else 0] + opt(a) + \
+            [1 if pre["complete"] else 0, enc(now)] + opt(pre["pacing"]) + [len(its)]
+        for r, st, ro, em in its:
+            tin += opt(r) + [st, ro, em]
+        kind = "stale-kept" if (not reached and pre["pacing"] is not None and post["pacing"] is not None) else \
+            ("not-reached" if not reached else ("bypass" if due else "consulted"))
+        self.fpace[kind] = self.fpace.get(kind, 0) + 1
+        self.femit("send_pacing", tin, opt(post["pacing"]))
+
     def dl(self, now, dur):
         """integer duration d with enc(now) + d = enc(now + dur)"""
         return enc(now + dur) - enc(now)
@@ -147,15 +335,28 @@ class Tracer:
         if ep.conn is None:
             return self._orig(name, *args, **kwargs)
         self.hook_qlog()
+        self.hook_loss()
         now = ep.clock.now
         pre = self.peek()
         gt_in = self.timer_inputs() if name == "get_timer" else None
+        fpre = self.sub() if name in ("get_timer", "handle_timer", "datagrams_to_send") else None
+        self.loss_calls = []
+        self.pace_calls = [] if name == "datagrams_to_send" else None
         self.cur = []
         nlog = len(ep.api_log)
         res = self._orig(name, *args, **kwargs)
         rec = ep.api_log[nlog] if len(ep.api_log) > nlog else None
         exc = rec.exc_type if rec is not None else None
         post = self.peek()
+        if fpre is not None and name in MODELLED:
+            self.hook_loss()                # _initialize may have replaced nothing, but a Retry re-creates nothing either; cheap
+            if name == "get_timer":
+                self.full_get_timer(fpre, gt_in[1], res, exc)
+            elif name == "handle_timer":
+                self.full_handle_timer(now, fpre, self.sub(), exc)
+            else:
+                self.full_send(now, fpre, self.sub(), exc)
+        self.pace_calls = None
         self.record(name, args, kwargs, now, pre, post, res, exc, gt_in)
         self.oracle_after(name, now, pre, post, res, exc)
         if name != "get_timer":
@@ -356,12 +557,14 @@ class Tracer:
         c = self.ep.conn
         gt_in = self.timer_inputs()
         pre = self.peek()
+        fpre = self.sub()
         exc = None
         try:
             t = c.get_timer()
         except Exception as e:  # noqa: BLE001  (the oracle reports it)
             t, exc = None, type(e).__name__
         post = self.peek()
+        self.full_get_timer(fpre, gt_in[1], t, exc)
         self.record("get_timer", (), {}, now, pre, post, t, exc, gt_in)
         self.check_timer(t, exc, now)
 
@@ -652,7 +855,8 @@ def run_scenario(case):
         if outcome.startswith("not-terminated") and t.started and not t.term_popped and not any(s.get("check") == "termination-count" for _, s in bad):
             bad.append(("%s not terminated within the horizon (%s)" % (n, outcome), {"check": "termination-count", "endpoint": n, "count": 0}))
         raised = [r for r in t.ep.raised]
-        res["sides"][n] = {"tin": t.tin, "tout": t.tout, "bad": bad, "ops": t.ops, "opnames": t.opnames, "dead": t.dead,
+        res["sides"][n] = {"fin": t.fin, "fout": t.fout, "fops": t.fops, "fsrc": t.fsrc, "fbranch": t.fbranch, "fpace": t.fpace,
+                           "tin": t.tin, "tout": t.tout, "bad": bad, "ops": t.ops, "opnames": t.opnames, "dead": t.dead,
                            "log": t.log, "term_kind": t.term_kind, "started": t.started, "closes_on_wire": ncl,
                            "closing": None if t.closing_since is None else t.closing_since - t0,
                            "term_time": None if t.term_time is None else t.term_time - t0,
@@ -838,10 +1042,25 @@ def _nontrivial(c, out):
     return s["started"] and s["ops"] >= 6 and s["term_kind"] is not None
 
 
+def _fenc(c):
+    return scenario(c["scn"])["sides"][c["side"]]["fin"]
+
+
+def _fimpl(c):
+    return scenario(c["scn"])["sides"][c["side"]]["fout"]
+
+
+def _fnontrivial(c, out):
+    s = scenario(c["scn"])["sides"][c["side"]]
+    return s["started"] and sum(s["fops"].values()) >= 6
+
+
 def suites(ctx):
     tm = corr.Suite(ctx, "timers", "exec_timers", _enc, _impl, _oracle, _ops, _rebuild, nontrivial=_nontrivial,
                     opname=lambda a: a.get("do", "?"), simplify=_simplify)
-    return (tm,)
+    tf = corr.Suite(ctx, "timersfull", "exec_timersfull", _fenc, _fimpl, _oracle, _ops, _rebuild, nontrivial=_fnontrivial,
+                    opname=lambda a: a.get("do", "?"), simplify=_simplify)
+    return (tm, tf)
 
 
 def pairs(cases):
@@ -852,19 +1071,23 @@ def pairs(cases):
 
 
 def run(ctx):
-    (tm,) = suites(ctx)
+    (tm, tf) = suites(ctx)
     corpus = corr.load_corpus("C09", "timers")
     tm.run(corpus, "corpus")
+    tf.run(corpus, "corpus")
     rng = ctx.rng
     n = ctx.n(800, 20000)
     cases = [gen_case(rng) for _ in range(n)]
     stats = {"scenarios": 0, "kinds": {}, "term_kinds": {}, "outcomes": {}, "api_calls_traced": 0, "timer_checks": 0, "model_ops": {},
              "anomaly_timer_in_past_runs": 0, "busy_loop_firings": 0, "tracing_stopped": {}, "skipped_actions": 0, "injected_close_started_closing": {}, "closing_datagrams_seen": 0,
-             "virtual_seconds": 0.0, "wire_datagrams": 0}
+             "virtual_seconds": 0.0, "wire_datagrams": 0,
+             "composed_model_ops": {}, "composed_timer_source": {}, "composed_handle_timer_branch": {}, "composed_send_pacing": {},
+             "pacing_reset_in_tree": PACING_RESET()}
     B = 50
     for i in range(0, len(cases), B):
         chunk = cases[i:i + B]
         tm.run(pairs(chunk))
+        tf.run(pairs(chunk))
         for scn in chunk:
             r = scenario(scn)
             stats["scenarios"] += 1
@@ -886,6 +1109,13 @@ def run(ctx):
                 stats["closing_datagrams_seen"] += s["closes_on_wire"] or 0
                 for k, v in s["opnames"].items():
                     stats["model_ops"][k] = stats["model_ops"].get(k, 0) + v
+                for src, dst in (("fops", "composed_model_ops"), ("fsrc", "composed_timer_source"),
+                                 ("fbranch", "composed_handle_timer_branch"), ("fpace", "composed_send_pacing")):
+                    for k, v in s[src].items():
+                        k = {0: "close_at", 10: "ack_at[Initial]", 11: "ack_at[Handshake]", 12: "ack_at[application]", 20: "loss_time[Initial]",
+                             21: "loss_time[Handshake]", 22: "loss_time[application]", 30: "pto", 40: "pacing_at", -2: "unexplained"}.get(k, str(k)) \
+                            if src == "fsrc" else ({0: "nothing", 1: "terminated", 2: "loss-detection", 3: "pto"}.get(k, str(k)) if src == "fbranch" else str(k))
+                        stats[dst][k] = stats[dst].get(k, 0) + v
                 tk = {None: "none", 1: "local-close", 2: "error-or-peer-close", 4: "idle", 5: "version-negotiation"}[s["term_kind"]] if s["started"] else "not-started"
                 stats["term_kinds"][tk] = stats["term_kinds"].get(tk, 0) + 1
                 if s["dead"]:
@@ -893,7 +1123,7 @@ def run(ctx):
         _CACHE.clear()
     stats["virtual_seconds"] = round(stats["virtual_seconds"], 1)
     return corr.merge_coverage(
-        [tm],
+        [tm, tf],
         "seeded scenario grammar over real QuicConnection pairs (kinds: close / peer close per packet number space / fatal frame / "
         "blackout / idle / version negotiation / corrupted first datagrams / garbage to an eager server / mixes / manual API orders / "
         "local close racing a peer close; "
@@ -904,14 +1134,15 @@ def run(ctx):
 
 
 def replay(ctx, rep):
-    (tm,) = suites(ctx)
+    suites(ctx)
     case = rep["case"]
     if isinstance(case, str):
         return {"error": "case was truncated in the replay file"}
     r = run_scenario(case["scn"])
     s = r["sides"][case["side"]]
-    got = core.run_model("exec_timers", [s["tin"]], shards=1)[0]
-    exp = s["tout"]
+    full = rep.get("suite") == "timersfull"
+    got = core.run_model("exec_timersfull" if full else "exec_timers", [s["fin"] if full else s["tin"]], shards=1)[0]
+    exp = s["fout"] if full else s["tout"]
     first = next((i for i, (a, b) in enumerate(zip(exp, got)) if a != b), None)
     if first is None and len(exp) != len(got):
         first = min(len(exp), len(got))
